@@ -7,6 +7,7 @@ import (
 	"os"
 	"strconv"
 	"sync"
+	"sync/atomic"
 	"testing"
 	"time"
 
@@ -69,9 +70,14 @@ func TestAdders(t *testing.T) {
 		a := adder.NewLongAdder(ty)
 		par(8, func(i int) {
 			for k := 0; k < rounds()*4; k++ {
-				if k%5 == 0 {
+				switch {
+				case k%5 == 0:
 					a.Sum()
-				} else {
+				case k%5 == 1 && i%2 == 0:
+					a.Inc() // the unit wrappers next to general updates
+				case k%5 == 2 && i%2 == 1:
+					a.Dec()
+				default:
 					a.Add(int64(i))
 				}
 			}
@@ -79,13 +85,17 @@ func TestAdders(t *testing.T) {
 		if ty == adder.MutexAdderType {
 			par(6, func(i int) {
 				for k := 0; k < rounds(); k++ {
-					switch (i + k) % 5 {
+					switch (i + k) % 7 {
 					case 0:
 						a.SumAndReset()
 					case 1:
 						a.Store(3)
 					case 2:
 						a.Reset()
+					case 3:
+						a.Inc()
+					case 4:
+						a.Dec()
 					default:
 						a.Add(1)
 					}
@@ -238,6 +248,30 @@ func TestPool(t *testing.T) {
 	}
 }
 
+// a pool that is never started (wait group at zero) and expands on demand: blocking submissions whose own context is already done spawn
+// expanded workers and return through the cancellation case, Stop runs next to them (its wg.Wait against the workers' registration)
+func TestPoolNeverStarted(t *testing.T) {
+	for r := 0; r < rounds()/2+1; r++ {
+		p := workerpool.NewPool(context.Background(), workerpool.Option{NumberWorker: 1, ExpandableLimit: int32(1 + r%3), ExpandedLifetime: 50 * time.Microsecond, DisableAutoStart: true})
+		dead, cancel := context.WithCancel(context.Background())
+		cancel()
+		var wg sync.WaitGroup
+		for i := 0; i < 4; i++ {
+			wg.Add(1)
+			go func(i int) {
+				defer wg.Done()
+				defer func() { recover() }()
+				p.ExecuteWithCtx(dead, func(context.Context) (interface{}, error) { return i, nil })
+			}(i)
+		}
+		if r%2 == 0 {
+			wg.Wait()
+		}
+		p.Stop()
+		wg.Wait()
+	}
+}
+
 func TestBackoffs(t *testing.T) {
 	// shared backoffs of every kind and through every construction route; fresh ones in every round, so that the first (cold) queries
 	// of a backoff are concurrent too; attempts from the first to far beyond the clamp of the exponential policy and beyond the limit
@@ -270,5 +304,53 @@ func TestBackoffs(t *testing.T) {
 				}
 			}
 		})
+	}
+}
+
+// TestSharedBackoffValues: "backoff queries" are documented as safe for concurrent use, and C05's envelope holds for every query whoever
+// else is querying: a deterministic policy (fixed, exponential, limit wrapper) shared by several goroutines must return, for every attempt
+// number, exactly what a backoff of the same parameters returns to a single goroutine. (Values, not races: a memo kept in two separate
+// atomics is race-free and still hands one attempt the delay of another.)
+func TestSharedBackoffValues(t *testing.T) {
+	type mk func() (retry.Backoff, error)
+	makers := map[string]mk{
+		"exponential(10,1000,2)":        func() (retry.Backoff, error) { return retry.NewExponentialBackoff(10, 1000, 2) },
+		"exponential(1,2^40,3)":         func() (retry.Backoff, error) { return retry.NewExponentialBackoff(1, 1<<40, 3) },
+		"exponential(100,6400000,2)":    func() (retry.Backoff, error) { return retry.NewExponentialBackoff(100, 6400000, 2) },
+		"spec exponential=3:100000:1.5": func() (retry.Backoff, error) { return retry.NewBackoffBuilder().BaseBackoffSpec("exponential=3:100000:1.5").Build() },
+		"limit(exponential(10,1000,2),25)": func() (retry.Backoff, error) {
+			e, err := retry.NewExponentialBackoff(10, 1000, 2)
+			if err != nil {
+				return nil, err
+			}
+			return retry.NewAttemptLimitingBackoff(e, 25)
+		},
+		"fixed(9)": func() (retry.Backoff, error) { return retry.NewFixedBackoff(9) },
+	}
+	const maxAttempt = 48
+	for r := 0; r < 2+rounds()/10; r++ {
+		for name, make := range makers {
+			twin, err := make()
+			if err != nil {
+				t.Fatal(err)
+			}
+			var want [maxAttempt + 1]int64
+			for n := 1; n <= maxAttempt; n++ {
+				want[n] = twin.NextDelayMillis(n)
+			}
+			shared, err := make()
+			if err != nil {
+				t.Fatal(err)
+			}
+			var bad int32
+			par(8, func(i int) {
+				for k := 0; k < 4000; k++ {
+					n := 1 + (k*(2*i+1)+5*i)%maxAttempt
+					if got := shared.NextDelayMillis(n); got != want[n] && atomic.CompareAndSwapInt32(&bad, 0, 1) {
+						t.Errorf("MONFAIL C05 shared %s queried by 8 goroutines: attempt %d returned %d, a backoff of the same parameters queried by one goroutine returns %d", name, n, got, want[n])
+					}
+				}
+			})
+		}
 	}
 }
